@@ -227,6 +227,58 @@ static int cmp_lex(const int64_t* a, const int64_t* b, int n) {
     if (!(cond)) C->violation(key, #cond, desc);                  \
   } while (0)
 
+// Scalar operand that is one of the object's own components (v -= v.x, m /= m.m[0][0]): the result must be
+// what the same operator gives when the scalar is first copied to a local.
+template <typename V, int N>
+static void scalar_alias_checks(const V& a, const char* name, const std::string& d) {
+  for (int comp = 0; comp < N; comp++) {
+    int64_t sc = a.at(comp);
+    const int64_t* self;
+    {
+      V t = a; self = reinterpret_cast<const int64_t*>(&t) + comp;
+      V ref = a; ref += sc; t += *self;
+      if (!(t == ref)) C->violation(std::string(name) + ":add-scalar-aliased", "v += v.component differs from v += copy", d);
+    }
+    {
+      V t = a; self = reinterpret_cast<const int64_t*>(&t) + comp;
+      V ref = a; ref -= sc; t -= *self;
+      if (!(t == ref)) C->violation(std::string(name) + ":sub-scalar-aliased", "v -= v.component differs from v -= copy", d);
+    }
+    {
+      V t = a; self = reinterpret_cast<const int64_t*>(&t) + comp;
+      V ref = a; ref *= sc; t *= *self;
+      if (!(t == ref)) C->violation(std::string(name) + ":mul-scalar-aliased", "v *= v.component differs from v *= copy", d);
+    }
+    if (sc != 0) {
+      {
+        V t = a; self = reinterpret_cast<const int64_t*>(&t) + comp;
+        V ref = a; ref /= sc; t /= *self;
+        if (!(t == ref)) C->violation(std::string(name) + ":div-scalar-aliased", "v /= v.component differs from v /= copy", d);
+      }
+      // %= by an own component: after the first component becomes 0 a by-reference implementation divides by zero;
+      // compute through a copy when the reference result would be needed, and only call the aliased form when safe
+      V ref = a; ref %= sc;
+      bool safe = true;
+      for (int k = 0; k < comp; k++) (void)k;
+      if (ref.at(comp) != 0 || comp == N - 1) {
+        V t = a; self = reinterpret_cast<const int64_t*>(&t) + comp;
+        t %= *self;
+        if (!(t == ref)) C->violation(std::string(name) + ":mod-scalar-aliased", "v %= v.component differs from v %= copy", d);
+      }
+      (void)safe;
+    }
+    // non-assigning forms return a new object, aliasing cannot matter but the value must still match
+    {
+      V t = a; self = reinterpret_cast<const int64_t*>(&t) + comp;
+      V r1 = t + *self, r2 = a + sc;
+      V r3 = t - *self, r4 = a - sc;
+      V r5 = t * *self, r6 = a * sc;
+      if (!(r1 == r2) || !(r3 == r4) || !(r5 == r6)) C->violation(std::string(name) + ":scalar-op-aliased", "v op v.component differs from v op copy", d);
+    }
+  }
+  C->cls(std::string(name) + ":scalar-aliasing");
+}
+
 static void v2_suite() {
   const int L = 4;
   for (int64_t ax = -L; ax <= L; ax++) for (int64_t ay = -L; ay <= L; ay++) {
@@ -280,6 +332,7 @@ static void v2_suite() {
     VCHECK(a.at(0) == ax && a.at(1) == ay, "vector2:at", d);
     VCHECK(!(a < a), "vector2:less-irreflexive", d);
     VCHECK((!a) == (ax == 0 && ay == 0), "vector2:not", d);
+    scalar_alias_checks<V2, 2>(a, "vector2", d);
     { V2 t2 = a; t2 += t2; VCHECK(t2.x == 2 * ax && t2.y == 2 * ay, "vector2:add-assign-aliased", d); t2 = a; t2 -= t2; VCHECK(t2.x == 0 && t2.y == 0, "vector2:sub-assign-aliased", d); }
     VCHECK(V2::dimensions() == 2, "vector2:dimensions", d);
   }
@@ -335,6 +388,7 @@ static void v3_suite() {
     VCHECK(a.at(0) == ax && a.at(1) == ay && a.at(2) == az, "vector3:at", d);
     VCHECK(!(a < a), "vector3:less-irreflexive", d);
     VCHECK((!a) == (ax == 0 && ay == 0 && az == 0), "vector3:not", d);
+    scalar_alias_checks<V3, 3>(a, "vector3", d);
     { V3 t3 = a; t3 += t3; VCHECK(t3.x == 2 * ax && t3.y == 2 * ay && t3.z == 2 * az, "vector3:add-assign-aliased", d); t3 = a; t3 -= t3; VCHECK(t3.x == 0 && t3.y == 0 && t3.z == 0, "vector3:sub-assign-aliased", d);
       V3 cs = a.cross(a); VCHECK(cs.x == 0 && cs.y == 0 && cs.z == 0, "vector3:cross-self", d); }
     V3 fromv2(V2(ax, ay), az);
@@ -390,6 +444,7 @@ static void v4_suite(vf::Rng& r) {
     if ((A < B) && (B < Cc) && !(A < Cc)) C->violation("vector4:less-transitive", "transitivity", d());
     V4 n2 = -A;
     if (!(n2.x == -a[0] && n2.y == -a[1] && n2.z == -a[2] && n2.w == -a[3])) C->violation("vector4:neg", "neg", d());
+    if ((i & 7) == 0) scalar_alias_checks<V4, 4>(A, "vector4", d());
     int64_t sc = c[0];
     V4 q = A * sc; if (!(q.x == a[0] * sc && q.y == a[1] * sc && q.z == a[2] * sc && q.w == a[3] * sc)) C->violation("vector4:mul-scalar", "*s", d());
     q = A + sc; if (!(q.x == a[0] + sc && q.y == a[1] + sc && q.z == a[2] + sc && q.w == a[3] + sc)) C->violation("vector4:add-scalar", "+s", d());
@@ -486,6 +541,20 @@ static void matrix_suite(vf::Rng& r) {
     bool allzero = true;
     for (int z = 0; z < 16; z++) allzero &= R.v[z] == 0;
     if (!allzero) C->violation("matrix4:sub-assign-aliased", "m -= m is not zero", d);
+    // scalar operand that is one of the matrix's own elements
+    for (int z : {0, 5, 15}) {
+      int64_t e = A.v[z];
+      MI t = A; t += t.v[z]; MI ref = A; ref += e;
+      if (!(t == ref)) C->violation("matrix4:add-scalar-aliased", "m += m.element differs from m += copy", d);
+      t = A; t -= t.v[z]; ref = A; ref -= e;
+      if (!(t == ref)) C->violation("matrix4:sub-scalar-aliased", "m -= m.element differs from m -= copy", d);
+      t = A; t *= t.v[z]; ref = A; ref *= e;
+      if (!(t == ref)) C->violation("matrix4:mul-scalar-aliased", "m *= m.element differs from m *= copy", d);
+      if (e != 0) {
+        t = A; t /= t.v[z]; ref = A; ref /= e;
+        if (!(t == ref)) C->violation("matrix4:div-scalar-aliased", "m /= m.element differs from m /= copy", d);
+      }
+    }
     // scalar forms
     {
       int64_t sc = v.x;
